@@ -7,6 +7,9 @@ Oracle : per-residue reference assignment (residues ordered by lowest node key, 
 """
 import copy
 import itertools
+import os
+import shutil
+import tempfile
 
 from .. import harness, util
 
@@ -19,7 +22,7 @@ RULE = ('(a) systems of 1-6 molecules, each selected or not in every order (sele
         'selected one and >= 2 selected molecules. (b) DSSP strings: every string over the 11-letter alphabet up to '
         'length 4 (quick) / 6 (thorough) and random helix-rich strings up to length 60, also pushed through '
         'AnnotateMartiniSecondaryStructures on a molecule. Non-trivial string = contains >= 2 helical runs of '
-        'different length class. distinct = distinct system shapes / strings. Also: residues sharing a number (insertion codes, or told apart by name only); a second sequence applied to the same molecule objects after residue identities were edited in place.')
+        'different length class. distinct = distinct system shapes / strings. Also: residues sharing a number (insertion codes, or told apart by name only); a second sequence applied to the same molecule objects after residue identities were edited in place; (c) AnnotateDSSP through mdtraj on molecules whose residues are stored in ascending, rotated, reversed or shuffled order, with mdtraj.compute_dssp replaced by a function that labels each residue of the file it receives with a letter derived from its own number.')
 ASSUMPTIONS = ['residue order of a molecule = ascending lowest node key (the library\'s documented enumeration)',
                'an empty sequence with no selected molecule is a no-op; every other length mismatch must raise ValueError']
 MIN_HITS = {'quick': 20000, 'thorough': 1500000}
@@ -326,6 +329,75 @@ def through_molecule(seq, rnd):
     return {k: mol.nodes[k].get('cgsecstruct') for k in mol.nodes}, want
 
 
+# ------------------------------------------------------------------ (c) secondary structure computed from the structure (mdtraj path)
+def check_mdtraj_alignment(rnd, b):
+    """AnnotateDSSP without an executable writes the structure to a temporary PDB file, has mdtraj compute the secondary structure
+    and assigns the result residue by residue.  mdtraj.compute_dssp is replaced (it is looked up at call time) by a function that
+    labels every residue of the file it is given with a letter derived from that residue's own number; everything else is real
+    (copying, ordering, the PDB writer, mdtraj's PDB reader, the assignment).  Each atom must end up with the letter of its own
+    residue, whatever the order in which the residues are stored.  -> problem | None | 'skip'"""
+    try:
+        import mdtraj
+    except ImportError:
+        return 'skip'
+    import numpy as np
+    import vermouth.dssp.dssp as D
+    from vermouth.forcefield import ForceField
+    from vermouth.molecule import Molecule
+    from vermouth.system import System
+    letters = 'HETSCGB'
+    ff = ForceField(name='verif_c17_md')
+    system = System(force_field=ff)
+    nmol = rnd.randint(1, 3)
+    want = {}
+    key = 0
+    for mi in range(nmol):
+        mol = Molecule(force_field=ff)
+        nres = rnd.randint(2, 9)
+        start = rnd.choice([1, 1, 5, 30])
+        resids = list(range(start, start + nres))
+        mode = rnd.choice(['ascending', 'rotated', 'reversed', 'shuffled', 'ascending'])
+        if mode == 'rotated':
+            k_ = rnd.randint(1, nres - 1)
+            resids = resids[k_:] + resids[:k_]
+        elif mode == 'reversed':
+            resids.reverse()
+        elif mode == 'shuffled':
+            rnd.shuffle(resids)
+        chain = 'ABC'[mi]
+        for r in resids:
+            base = np.array([0.38 * r, 0.5 * mi, 0.0])
+            for j, (an, el) in enumerate([('N', 'N'), ('CA', 'C'), ('C', 'C'), ('O', 'O')]):
+                mol.add_node(key, atomname=an, element=el, resname='ALA', resid=r, chain=chain, atomid=key + 1,
+                             position=base + np.array([0.1 * j, 0.05 * (j % 2), 0.02 * j]))
+                want[(mi, key)] = letters[r % len(letters)]
+                key += 1
+        system.add_molecule(mol)
+    orig = mdtraj.compute_dssp
+
+    def fake(struct, simplified=False):
+        row = [letters[res.resSeq % len(letters)] for res in struct.topology.residues]
+        return np.array([row])
+    work = tempfile.mkdtemp(prefix='c17md-')
+    cwd = os.getcwd()
+    mdtraj.compute_dssp = fake
+    try:
+        os.chdir(work)
+        D.AnnotateDSSP(executable=None).run_system(system)
+    finally:
+        mdtraj.compute_dssp = orig
+        os.chdir(cwd)
+        shutil.rmtree(work, ignore_errors=True)
+    b.hits += 1
+    wrong = [(mi, k, d.get('aasecstruct'), want[(mi, k)], d['resid']) for mi, mol in enumerate(system.molecules) for k, d in mol.nodes(data=True)
+             if d.get('aasecstruct') != want[(mi, k)]]
+    if wrong:
+        return ('dssp-from-structure/letters-on-wrong-residues',
+                {'wrong_atoms': len(wrong), 'first': [list(map(str, w)) for w in wrong[:4]],
+                 'residue_order_per_molecule': [[d['resid'] for k, d in list(mol.nodes(data=True))[::4]] for mol in system.molecules]})
+    return None
+
+
 def cases(tier, seed):
     out = []
     nb, per = (16, 600) if tier == 'quick' else (64, 6000)
@@ -352,6 +424,17 @@ def run_case(params):
 
     if params['kind'] == 'annot':
         rnd = harness.rng('C17a', params['seed'], params['batch'])
+        bb = harness.Batch()
+        for j in range(max(3, params['n'] // 40)):
+            pm = check_mdtraj_alignment(rnd, bb)
+            if pm == 'skip':
+                feats['mdtraj_not_installed'] = 1
+                break
+            hits += 1
+            feats['dssp_from_structure_cases'] = feats.get('dssp_from_structure_cases', 0) + 1
+            if pm:
+                return {'verdict': 'violated', 'key': pm[0], 'what': 'secondary structure computed from the structure lands on other residues',
+                        'witness': {'detail': pm[1]}, 'hits': hits, 'features': feats, 'nontrivial': True, 'hash': harness.h(pm[1])}
         for j in range(params['n']):
             case = gen_system(rnd)
             problem, f, nontrivial, ubs = check_system(case)
